@@ -59,6 +59,9 @@ FINDINGS = {
     "acronym_byte_as_char": {
         "sites": {(CORE + "acronym.rs", "find_longest_match")},
         "class": "latin1_acronym", "hang": False},
+    "argv_nonutf8_parse_error": {
+        "sites": {("renamify-cli/src/main.rs", "argv_asks_for_json")},
+        "class": "nonutf8_argv", "hang": False},
     "json_nonutf8_path": {
         "sites": {(CORE + "output.rs", "format_json")},
         "class": "nonutf8_name_json", "hang": False},
@@ -84,6 +87,8 @@ def step_classes(case, step):
             cl.add("empty_variant")
     if cmd == "replace" and "--no-regex" in argv and len(pos) >= 2 and pos[1] == "":
         cl.add("empty_literal_pattern")
+    if any(0xDC80 <= ord(ch) <= 0xDCFF for a in argv for ch in a):
+        cl.add("nonutf8_argv")
     for i, a in enumerate(argv):
         if a in ("--include-acronyms", "--only-acronyms") and i + 1 < len(argv) and any(0x80 <= ord(ch) <= 0xFF for ch in argv[i + 1]):
             cl.add("latin1_acronym")
@@ -261,6 +266,31 @@ def load_witnesses():
     return out
 
 
+def overlap_cases():
+    """fixed hand-edited-plan cases: `plan`, add a second DIFFERENT hunk that overlaps / touches a planned one (every kind of
+    c16_cli.OVERLAPS, three variants each; each hunk alone is valid for the file), `apply`"""
+    content = "let old_name = 1; // old_name_extra here\nsecond old_name line\nédition old_name_é old_nameß\n"
+    cases = []
+    for how in cli.OVERLAPS:
+        for arg in range(4):
+            cases.append({"idx": len(cases), "family": "overlap:" + how, "search": "old_name", "replace": "new_name",
+                          "tree": [["f", cli.H("a.txt"), cli.H(content)]], "state": [],
+                          "steps": [{"argv": ["plan", "old_name", "new_name", "--no-auto-init", "--quiet"]},
+                                    {"mutate": "plan", "how": how, "arg": arg},
+                                    {"argv": ["apply", "--no-auto-init"]}]})
+    return cases
+
+
+def overlap_regression(ctx):
+    cases = overlap_cases()
+    for case, res in zip(cases, run_cases(cases, timeout=30)):
+        ctx.case(("overlap", case["family"], case["idx"]))
+        ctx.count("overlap-plan:apply-status=" + str(res[-1]["rc"]))
+        if examine(ctx, case, res, "hand-edited plan with overlapping hunks (" + case["family"] + ")"):
+            return True
+    return False
+
+
 def witnesses(ctx):
     """replay every recorded witness; print KNOWN-FINDING only when the defect is re-observed exactly as recorded"""
     ws = load_witnesses()
@@ -426,14 +456,89 @@ def gen_inprocess(rng, n):
     return reqs
 
 
+def gen_overlap_edits(rng):
+    """`panic_edits` request: a consistent edit plus a second, DIFFERENT hunk of the same file that overlaps or touches it
+    (nested, straddling, same start / end, enclosing, adjacent, reversed order, same range with another replacement).
+    Each hunk alone is valid: in range, on character boundaries, recorded text present."""
+    words = ["old_name", "_extra", " ", "é", "日本", "x", "let ", "= 1;", "\n", "foo_bar", "Baz", "ß", "-"]
+    pieces = [rng.choice(words) for _ in range(rng.randint(3, 9))]
+    data = "".join(pieces).encode()
+    offs = [0]
+    for p in pieces:
+        offs.append(offs[-1] + len(p.encode()))
+    i = rng.randrange(len(pieces))
+    j = min(len(pieces), i + rng.randint(1, 3))
+    base = {"start": offs[i], "end": offs[j], "content": "".join(pieces[i:j]), "replace": rng.choice(["new_name", "", "Q", "日"])}
+    how = rng.choice(cli.OVERLAPS)
+    x = cli.overlap_hunk(base, data, how, rng.randint(0, 5)) or cli.overlap_hunk(base, data, "dup_other_replacement", rng.randint(0, 5))
+    hunks = [base, x] if rng.random() < 0.5 else [x, base]
+    if how == "overlap_reversed" and j < len(pieces):
+        hunks = [{"start": offs[j], "end": offs[-1], "content": "".join(pieces[j:]), "replace": "T"}] + hunks
+    f = ["panic_edits", hexs(data)]
+    for h in hunks:
+        f += [hexs(h["content"]), hexs(h["replace"]), str(h["start"]), str(h["end"])]
+    return " ".join(f), how
+
+
+def cli_case_for(req):
+    """the same input as an in-process request, as a CLI case (tree + plan.json / arguments): a disagreement found in-process
+    is replayed on the real binary at once, so that a concrete failing command line is reported, not only a broken tie"""
+    f = req.split()
+    op = f[0]
+    H = cli.H
+    txt = lambda h: common.unhex(h).decode("utf-8", "replace")
+    case = {"idx": 0, "family": "inprocess-replay", "search": "", "replace": "", "tree": [], "state": [], "steps": [], "from_request": req}
+    base = ["--no-auto-init"]
+    if op == "panic_edits":
+        hunks = []
+        for g in range(2, len(f), 4):
+            hunks.append([H("a.txt"), txt(f[g]), txt(f[g + 1]), int(f[g + 2]), int(f[g + 3])])
+        case["tree"] = [["f", H("a.txt"), H(common.unhex(f[1]))]]
+        case["steps"] = [{"mutate": "write_plan", "hunks": hunks}, {"argv": ["apply"] + base}]
+    elif op == "panic_lock":
+        case["tree"] = [["f", H("a.txt"), H("x foo_bar y\n")]]
+        case["state"] = [["renamify.lock", H(common.unhex(f[1]))]]
+        case["steps"] = [{"argv": ["plan", "foo_bar", "baz_qux", "--quiet"] + base}, {"argv": ["apply"] + base}]
+    elif op in ("panic_coerce", "panic_compound"):
+        cont, old, new = txt(f[1]), txt(f[2]), txt(f[3])
+        case["search"], case["replace"] = old, new
+        case["tree"] = [["f", H("a.txt"), H("x " + cont + " y\n" + cont + "\n")], ["f", H((cont.replace("/", "_") or "n")[:200] + ".txt"), H(cont)]]
+        case["steps"] = [{"argv": ["plan"] + base + ["--dry-run", "--", old, new]}, {"argv": ["rename"] + base + ["--dry-run", "--preview", "diff", "--", old, new]}]
+    elif op in ("panic_tokens", "panic_tokens_acr", "panic_upper", "panic_vmap"):
+        text = txt(f[1])
+        repl = txt(f[2]) if op == "panic_vmap" else "baz_qux"
+        acr = ["--include-acronyms", ",".join(txt(a) for a in f[2:])] if op == "panic_tokens_acr" and len(f) > 2 else []
+        case["search"], case["replace"] = text, repl
+        case["tree"] = [["f", H("a.txt"), H("x " + text + " y\n" + text + "\nfoo_bar " + text + "\n")]]
+        case["steps"] = [{"argv": ["plan"] + base + ["--dry-run"] + acr + ["--", text, repl]},
+                         {"argv": ["plan"] + base + ["--dry-run"] + acr + ["--", "foo_bar", text]},
+                         {"argv": ["search"] + base + acr + ["--", text]}]
+    elif op in ("panic_boundary", "panic_find"):
+        data = common.unhex(f[1])
+        vs = [txt(v) for v in f[2:]] if op == "panic_find" else ["foo", "A", "z9"]
+        case["tree"] = [["f", H("a.txt"), H(data)]]
+        case["steps"] = [{"argv": ["plan"] + base + ["--dry-run", "--", v or "x", "q"]} for v in vs[:3]]
+        case["search"] = vs[0] if vs else ""
+    else:
+        return None
+    for st in case["steps"]:
+        if "argv" in st:
+            st["argv"] = [a.replace("\x00", "") for a in st["argv"]]
+    return case
+
+
 def inprocess(ctx, n):
     reqs = gen_inprocess(ctx.rng, n)
+    for _ in range(n // 2):
+        r, how = gen_overlap_edits(ctx.rng)
+        reqs.append(r)
+        ctx.count("inproc:overlap:" + how)
     try:
         impl = common.run_impl(reqs)
         model = common.run_model(reqs)
     except RuntimeError as ex:
         ctx.broke("correspondence", "panic_* ops", str(ex))
-        return
+        return False
     ctx.cov["disagreements_checked"] += len(reqs)
     first = None
     for r, i, m in zip(reqs, impl, model):
@@ -456,7 +561,21 @@ def inprocess(ctx, n):
     if first:
         r, i, m, why = first
         ctx.broke("correspondence", "panic / no panic: implementation vs Lean model", {"request": r, "impl": i, "model": m, "why": why})
+        # replay the disagreeing inputs through the CLI at once: a concrete failing command line beats a broken tie
+        tried = 0
+        for r2, i2, m2 in zip(reqs, impl, model):
+            if i2 == "panic" and m2 != "panic" and tried < 12:
+                case = cli_case_for(r2)
+                if case is None:
+                    continue
+                tried += 1
+                ctx.count("inproc:replayed-through-cli")
+                res = cli.execute(case)
+                ctx.case(("inproc-replay", r2))
+                if examine(ctx, case, res, "in-process disagreement replayed through the CLI (" + r2.split()[0] + ")"):
+                    return True
     ctx.sample({"inprocess": reqs[0], "impl": impl[0], "model": model[0]})
+    return False
 
 
 # ---------------------------------------------------------------------------------------------------
@@ -530,7 +649,10 @@ def run(ctx):
     # reported with that concrete input
     if witnesses(ctx):
         return
-    inprocess(ctx, 3000 if ctx.thorough else 600)
+    if overlap_regression(ctx):
+        return
+    if inprocess(ctx, 3000 if ctx.thorough else 600):
+        return
     n = 5000 if ctx.thorough else 300
     if cli_stream(ctx, n, "stream"):
         return
